@@ -740,6 +740,8 @@ def render_descriptor(d, root_dir):
         return render_nest(p)
     if fam == "tree":
         return render_tree(p, root_dir)
+    if fam == "seed":
+        return {"k": "src", "src": join_tokens(seed_tokens(SEED_NAMES[p[0] - 1]))}, "seed:" + SEED_NAMES[p[0] - 1], []
     raise vlib.ToolError("unknown input family %r" % (fam,))
 
 
@@ -895,11 +897,13 @@ def generate_inputs(tier, ev, stats):
 def totality(tier, ev, verd, stats):
     descs = generate_inputs(tier, ev, stats)
     tree_root = vlib.workdir(PID, "trees", clean=True)
-    # the unmodified seeds must be valid programs (otherwise their mutants exercise nothing)
+    # the unmodified seeds must be valid programs (otherwise their mutants exercise nothing); a seed the
+    # compiler crashes on is a violation like any other input (it is also part of the slices below)
     seeds = [{"k": "src", "src": join_tokens(seed_tokens(n))} for n in SEED_NAMES]
     for n, res in zip(SEED_NAMES, vlib.run_batch("c06", seeds, nproc=2, pid=PID, tag="seeds", stall=10)):
-        if vlib.outcome_of(res) != "returned" or res["r"]["outcome"] != "ok":
-            raise vlib.ToolError("seed program %s does not compile: %s" % (n, res))
+        if vlib.outcome_of(res) == "returned" and res["r"]["outcome"] == "err":
+            raise vlib.ToolError("seed program %s is not a valid program: %s" % (n, res))
+    descs = descs + [{"fam": "seed", "p": [i + 1]} for i in range(len(SEED_NAMES))]
     # spread the inputs over slices and worker processes (a hanging probe costs its worker the stall time)
     random.Random(vlib.seed()).shuffle(descs)
     seen = set()
